@@ -19,6 +19,7 @@ Not decided: Newton / fsolve recovering the pose to 1e-3; rigid-motion invarianc
 import ast
 
 from ..engine.model import AnalysisError, src, walk_own
+from ..engine.inline import Inliner
 from .spstate import SPAnalysis, SPM
 from .c10 import coherence
 
@@ -39,30 +40,32 @@ def check(model, rep):
     lp = loops[0]
     i = lp.target.id
     rep.ob('R09.1', k, 'for %s in range(6)' % i, src(lp.iter).replace(' ', '') == 'range(6)', 'leg loop ranges over %s' % src(lp.iter), line=lp.lineno)
-    st = {src(n.targets[0]).replace(' ', ''): src(n.value).replace(' ', '') for n in lp.body if isinstance(n, ast.Assign)}
-    wb = st.get('%s[0:3,%s]' % (bL, i))
-    wt = st.get('%s[0:3,%s]' % (tL, i))
-    rep.ob('R09.1', k, 'bottom joint i = TrVec(bottom pose, bottom-local joint i)', wb == 'TrVec(%s,%s[0:3,%s])' % (bT, bJ, i), 'bottom statement is %s' % wb, line=lp.lineno)
-    rep.ob('R09.1', k, 'top joint i = TrVec(top pose, top-local joint i)', wt == 'TrVec(%s,%s[0:3,%s])' % (tT, tJ, i), 'top statement is %s' % wt, line=lp.lineno)
-    sym = wb is not None and wt is not None and wb.replace(bT, '#T').replace(bJ, '#J') == wt.replace(tT, '#T').replace(tJ, '#J')
-    rep.ob('R09.1', k, 'the two statements are mirror images under bottom<->top', sym, 'bottom: %s ; top: %s' % (wb, wt), line=lp.lineno)
-    asg = {}
-    for n in lp.body:
-        if isinstance(n, ast.Assign) and isinstance(n.targets[0], ast.Name):
-            asg[n.targets[0].id] = src(n.value).replace(' ', '')
-    ln = st.get('lengths[%s]' % i)
-    ln = asg.get(ln, ln)
-    ok = ln in ('Norm(%s[0:3,%s]-%s[0:3,%s])' % (tL, i, bL, i), 'Norm(%s[0:3,%s]-%s[0:3,%s])' % (bL, i, tL, i))
-    rep.ob('R09.1', k, 'length i = |top joint i - bottom joint i|', ok, 'length statement is %s' % ln, line=lp.lineno)
-    r = [n for n in walk_own(k.node) if isinstance(n, ast.Return)]
-    rep.ob('R09.1', k, 'returns (lengths, bottom joints, top joints)', len(r) == 1 and src(r[0].value).replace(' ', '').strip('()') == 'lengths,%s,%s' % (bL, tL),
-           'kernel returns %s' % (src(r[0].value) if r else '?'))
-    tv = model.func(FHP, 'TrVec')
-    a = {src(n.targets[0]).replace(' ', ''): src(n.value).replace(' ', '') for n in walk_own(tv.node) if isinstance(n, ast.Assign)}
-    rr = [n for n in walk_own(tv.node) if isinstance(n, ast.Return)]
-    ok = a.get('vector_4') == 'np.ones(4)' and a.get('vector_4[0:3]') == tv.params[1] and a.get('new_vec') == '%s@vector_4' % tv.params[0] \
-        and len(rr) == 1 and src(rr[0].value).replace(' ', '') == 'new_vec[0:3]'
-    rep.ob('R09.1', tv, 'TrVec(T, v) = (T @ [v; 1])[0:3]', ok, 'TrVec is %s' % a)
+    from ..engine import tv as _tv
+    ok, why = _tv.matches_spec(model, FHP, 'SPIKinSpace', '''
+        def SPIKinSpace(bottom_T, top_T, bottom_local, top_local, bottom_space, top_space):
+            lengths = np.zeros((6, 1))
+            for i in range(6):
+                bottom_space[0:3, i] = TrVec(bottom_T, bottom_local[0:3, i])
+                top_space[0:3, i] = TrVec(top_T, top_local[0:3, i])
+                lengths[i] = Norm(top_space[0:3, i] - bottom_space[0:3, i])
+            return lengths, bottom_space, top_space
+        ''')
+    rep.ob('R09.1', k, 'leg i: bottom_i = T_b . b_i, top_i = T_t . t_i (own transform on own joint column), length_i = |top_i - bottom_i|; returns (lengths, bottom, top)',
+           ok, 'SPIKinSpace is not the leg geometry of the definition: ' + why, line=lp.lineno)
+    tvf = model.func(FHP, 'TrVec')
+    ok, why = _tv.matches_spec(model, FHP, 'TrVec', '''
+        def TrVec(T, v):
+            h = np.ones(4)
+            h[0:3] = v
+            return (T @ h)[0:3]
+        ''')
+    rep.ob('R09.1', tvf, 'TrVec(T, v) = (T @ [v; 1])[0:3]', ok, 'TrVec is not the homogeneous action on a point: ' + why)
+    nm = model.func(_tv.PORT_MOD, 'Norm')
+    res = [_tv.matches_spec(model, _tv.PORT_MOD, 'Norm', sp_) for sp_ in (
+        'def Norm(v):\n    return np.sqrt(v[0] * v[0] + v[1] * v[1] + v[2] * v[2])\n',
+        'def Norm(v):\n    return np.sqrt(v[0] ** 2 + v[1] ** 2 + v[2] ** 2)\n',
+        'def Norm(v):\n    return np.linalg.norm(v)\n')]
+    rep.ob('R09.1', nm, 'Norm(v) = Euclidean length of a 3-vector', any(r[0] for r in res), 'Norm is not the Euclidean length: ' + res[0][1])
     sp = model.cls(SPM, 'SP')
     ih = sp.methods.get('_IKHelper')
     if ih is None:
@@ -72,7 +75,8 @@ def check(model, rep):
     msg = 'SPIKinSpace call not found'
     if len(calls) == 1:
         c = calls[0]
-        args = [src(x).replace(' ', '') for x in c.value.args]
+        ilh = Inliner(ih)
+        args = [ilh.text(x) for x in c.value.args]
         tg = [src(x) for x in c.targets[0].elts] if isinstance(c.targets[0], ast.Tuple) else []
         want_args = ['bottom_plate_pos.gTM()', 'top_plate_pos.gTM()', 'self._bottom_joints_local', 'self._top_joints_local',
                      'self._bottom_joints_space', 'self._top_joints_space']
@@ -81,7 +85,7 @@ def check(model, rep):
         msg = 'arguments %s ; results stored in %s' % (args, tg)
     rep.ob('R09.1', ih, 'SPIKinSpace(bottom pose, top pose, bottom-local, top-local, buffers) -> (lengths, bottom joints, top joints)', ok, msg)
     rel = [n for n in walk_own(ih.node) if isinstance(n, ast.Assign) and src(n.targets[0]) == 'self._current_plate_transform_local']
-    ok = len(rel) == 1 and src(rel[0].value).replace(' ', '') == 'fsr.globalToLocal(bottom_plate_pos,top_plate_pos)'
+    ok = len(rel) == 1 and Inliner(ih).text(rel[0].value) == 'fsr.globalToLocal(bottom_plate_pos,top_plate_pos)'
     rep.ob('R09.1', ih, 'relative transform = globalToLocal(bottom, top)', ok, 'relative transform is %s' % (src(rel[0].value) if rel else '?'))
 
     # ---------------------------------------------------------------- R09.2
@@ -142,6 +146,16 @@ def check(model, rep):
             rep.ob('R09.3', fr, src(c)[:80], False, 'SPFKinSpaceR needs (bottom table, top table); argument 2 derives from %s and argument 3 from %s'
                    % (sorted(lb) or 'no joint table', sorted(lt) or 'no joint table'), line=c.lineno)
     rep.floor('R09.3', 'Raphson kernel call sites', len(kc), 2)
-    co = [n for n in walk_own(fr.node) if isinstance(n, ast.Assign) and src(n.targets[0]) == 'coords']
-    rep.ob('R09.3', fr, 'solved pose = bottom pose @ tm(relative solution)', len(co) == 1 and src(co[0].value).replace(' ', '') == 'bottom_plate_pos_backup@tm(attempt)',
-           'result pose is %s' % (src(co[0].value) if co else '?'))
+    ilr = Inliner(fr)
+    sol = {n.targets[0].elts[0].id for n in walk_own(fr.node) if isinstance(n, ast.Assign) and isinstance(n.value, ast.Call) and src(n.value.func).endswith('SPFKinSpaceR')
+           and isinstance(n.targets[0], ast.Tuple) and isinstance(n.targets[0].elts[0], ast.Name)}
+    wb = [c for c in walk_own(fr.node) if isinstance(c, ast.Call) and src(c.func) == 'self._IKHelper']
+    bp = fr.params[2]
+    ok = len(sol) == 1 and len(wb) == 1 and len(wb[0].args) == 2
+    got = '?'
+    if ok:
+        R = {next(iter(sol)): 'SOL'}
+        got = '%s ; %s' % (ilr.text(wb[0].args[0], roles=R), ilr.text(wb[0].args[1], roles=R))
+        ok = ilr.same(wb[0].args[0], '%s.copy()@tm(SOL)' % bp, roles=R) and ilr.same(wb[0].args[1], '%s.copy()' % bp, roles=R)
+    rep.ob('R09.3', fr, 'solved pose = bottom pose @ tm(relative solution), written back through _IKHelper(top, bottom)', ok,
+           'write-back is _IKHelper(%s)' % got)
